@@ -5,7 +5,8 @@
    fs, results, got, cause) and accepts a step only if every invariant of Archive.tla holds afterwards.
 
      hdr    fmt, apath, hist {t, k}, members [{kind, nc, comps, direct}]
-            comps  = the member name split at "/" (labels are checked for MUST members only)
+            comps  = the member name split at "/" (labels are checked for MUST members only);
+            ncomps = comps without "." components (DON'T-CARE: file_path may or may not keep a "./")
             direct = digest ids of extracting that member's bytes on their own (equal id <=> equal sha256
                      of the canonical to_json without the four file-label fields)
      Fs     {op, cls}      one file-system effect, cls = class of os.path.realpath(path) against the
@@ -37,6 +38,7 @@ RECURSIVE Join(_)
 Join(c) == IF Len(c) = 1 THEN c[1] ELSE c[1] \o "/" \o Join(Tail(c))
 ExpBase(j) == H.members[j].comps[Len(H.members[j].comps)]          \* filename = basename of the member
 ExpPath(j) == H.apath \o "!/" \o Join(H.members[j].comps)          \* file_path = archive!/member
+NormPath(j) == H.apath \o "!/" \o Join(H.members[j].ncomps)        \* ... or with "./" components dropped
 
 (* one result handed to the consumer *)
 ItemOK(e) ==
@@ -45,7 +47,7 @@ ItemOK(e) ==
     /\ e.m >= LastM                                                \* archive order
     /\ ContribAt(ms, e.m) = "must" =>
          /\ Count(e.m) < nd[e.m]                                   \* not duplicated
-         /\ e.fn = ExpBase(e.m) /\ e.path = ExpPath(e.m)           \* labelled as itself
+         /\ e.fn = ExpBase(e.m) /\ e.path \in {ExpPath(e.m), NormPath(e.m)}    \* labelled as itself
          /\ e.dg = H.members[e.m].direct[Count(e.m) + 1]           \* identical to extracting it directly
 Deliver(e) == /\ ItemOK(e)
               /\ results' = Append(results, [m |-> e.m, src |-> IF e.canary = 1 THEN "host" ELSE "archive",
